@@ -27,6 +27,7 @@ type filler struct {
 	big   int      // how many big items (long text, wide table) this instance may still get
 	wide  int      // k > 0: the k-th wire-boundary instance of its type: every list / table whose count travels in one byte gets a count at a boundary of that byte (the k-th of the list, in turn)
 	min   *minPlan // not nil: minimal instance (gen "minimal")
+	light bool     // small tagged values, no random boundary counts (gen "life")
 }
 
 // A MINIMAL instance: every element has the smallest encoding its type allows
@@ -138,7 +139,7 @@ var wireCount = map[string]byteCount{
 // boundary picks a count at a boundary of the wire cell of key (ok = false: no such cell, or not this time).
 func (g *filler) boundary(key string) (int, bool) {
 	bc, ok := wireCount[key]
-	if !ok || !(g.wide > 0 || g.r.Intn(40) == 0) {
+	if !ok || !(g.wide > 0 || g.r.Intn(40) == 0) || g.light {
 		return 0, false
 	}
 	half := (bc.max + 1) / 2
@@ -245,6 +246,10 @@ func (g *filler) value(depth int) value.Value {
 	}
 	b := 6
 	o := &valgen.Opts{MaxWidth: 4, MaxBlob: 300, Budget: &b}
+	if g.light {
+		b = 3
+		o = &valgen.Opts{MaxWidth: 2, MaxBlob: 24, Budget: &b}
+	}
 	return valgen.Build(valgen.Rand(g.r, depth, o))
 }
 
@@ -587,7 +592,7 @@ func (g *filler) hook(p interface{}, depth int) {
 			}
 			pt := ts[g.r.Intn(len(ts))]
 			ip := pt.mk()
-			sub := &filler{r: g.r, nonil: g.nonil, min: g.min}
+			sub := &filler{r: g.r, nonil: g.nonil, min: g.min, light: g.light}
 			sub.populate(ip, depth-1)
 			inner[i] = ip.(pack.Pack)
 		}
